@@ -110,7 +110,15 @@ def run_scenario(sc, chooser, max_steps=20000, keep_world=False):
     """Run one scenario; returns dict(events, final, failure, choices, ...)."""
     w = W.World(sc, chooser, max_steps=max_steps)
     extra = _coordinator_patches(w)
-    if sc.get('scaled_adjuster', True):
+    if sc.get('adjuster'):
+        lo, hi, mx = sc['adjuster']
+
+        class LimitedAdjuster(_utils.ChunksizeAdjuster):
+            def __init__(self, max_size=hi, min_size=lo, max_parts=mx):
+                super().__init__(max_size, min_size, max_parts)
+        extra.append((_upload, 'ChunksizeAdjuster', LimitedAdjuster))
+        extra.append((_copies, 'ChunksizeAdjuster', LimitedAdjuster))
+    elif sc.get('scaled_adjuster', True):
         extra.append((_upload, 'ChunksizeAdjuster', ScaledAdjuster))
         extra.append((_copies, 'ChunksizeAdjuster', ScaledAdjuster))
     result = {}
